@@ -1854,6 +1854,12 @@ class Executor:
             return self.c.list_repeat(self, a.items[0], b)
         if isinstance(a, Obj) and isinstance(op, ast.LShift) and '__lshift__' in a.methods:
             return a.methods['__lshift__'](self, a, b)
+        for _opcls, _nm in ((ast.BitOr, 'or'), (ast.RShift, 'rshift'), (ast.BitAnd, 'and')):
+            if isinstance(op, _opcls):
+                if isinstance(a, Obj) and ('__%s__' % _nm) in a.methods:
+                    return a.methods['__%s__' % _nm](self, a, b)
+                if isinstance(b, Obj) and ('__r%s__' % _nm) in b.methods:
+                    return b.methods['__r%s__' % _nm](self, b, a)
         if isinstance(a, SeqV) or isinstance(b, SeqV):
             if isinstance(op, ast.Mult):
                 s, k = (a, b) if isinstance(a, SeqV) else (b, a)
